@@ -414,6 +414,24 @@ def check_index_order(R, prog):
     # Bipartite edges: all edges = G.edges() (left vertex, then its sorted neighbours) -- same order as the offsets
     fi = prog.func(VARS, "BipartiteEdgesVariables.indices")
     txt = [src(s) for s in stmts_in(fi.node)]
+    from ..guards import constraints_when, has
+    cfg = CFG(fi.node)
+    for var, bound, ret in (("u", "self.G.left_order()", "return ((u, v) for v in self.G.right_neighbors(u))"),
+                            ("v", "self.G.right_order()", "return ((u, v) for u in self.G.left_neighbors(v))")):
+        rets = [s for s in stmts_in(fi.node) if src(s) == ret]
+        guards = [s for s in stmts_in(fi.node) if isinstance(s, ast.If) and s.body and isinstance(s.body[0], ast.Raise)]
+        ok = False
+        for r in rets:
+            for g in guards:
+                c = constraints_when(g.test, False)
+                if has(c, var, ">=", "", 1) and has(c, var, "<=", bound, 0) and cfg.edge_dominates(cfg.node_of(g), False, cfg.node_of(r)):
+                    ok = True
+        if rets and ok:
+            R.ok("INDEX-ORDER", "BipartiteEdgesVariables.indices refuses a fixed %s outside 1..%s before projecting" % (var, bound), fi.key)
+        elif rets:
+            R.bad(F("INDEX-ORDER", fi, "BipartiteEdgesVariables.indices range test on %s" % var,
+                    "a wildcard pattern with fixed %s must be refused (ValueError) unless 1 <= %s <= %s: complete bipartite graphs do "
+                    "not validate the vertex themselves, so an out-of-range index is silently accepted" % (var, var, bound)))
     if "return self.G.edges()" in txt and "return ((u, v) for v in self.G.right_neighbors(u))" in txt and \
             "return ((u, v) for u in self.G.left_neighbors(v))" in txt:
         R.ok("INDEX-ORDER", "BipartiteEdgesVariables.indices: edges by left vertex then sorted right neighbour (offset order)", fi.key)
